@@ -59,15 +59,18 @@ fn agg_smoke(which: u8) {
 }
 #[cfg(feature = "simd-per-arch")]
 #[kani::proof]
-#[kani::unwind(14)]
+#[kani::unwind(34)]
+#[kani::stub(core::arch::x86_64::_mm_packs_epi16, agg::verif_stubs::model_mm_packs_epi16)]
 fn agg_sse2() { agg_smoke(1) }
 #[cfg(feature = "simd-per-arch")]
 #[kani::proof]
-#[kani::unwind(14)]
+#[kani::unwind(34)]
+#[kani::stub(core::arch::x86_64::_mm_shuffle_epi8, agg::verif_stubs::model_mm_shuffle_epi8)]
 fn agg_ssse3() { agg_smoke(2) }
 #[cfg(feature = "simd-per-arch")]
 #[kani::proof]
-#[kani::unwind(14)]
+#[kani::unwind(34)]
+#[kani::stub(core::arch::x86_64::_mm256_shuffle_epi8, agg::verif_stubs::model_mm256_shuffle_epi8)]
 fn agg_avx2() { agg_smoke(3) }
 
 pub(crate) fn ref_hexval(c: u8) -> Option<u8> {
@@ -210,4 +213,132 @@ fn alloc_free_compare() {
     let b: u8 = kani::any();
     let d = crate::compare::dist_qratios::distance(a, b);
     assert!(d <= 168);
+}
+
+
+// ---------------- probes batch 2
+fn ref_body_dist(a: &[u8], b: &[u8]) -> u32 {
+    let mut s = 0u32;
+    let mut i = 0;
+    while i < a.len() {
+        let mut j = 0;
+        while j < 4 {
+            s += ref_dibit((a[i] >> (2 * j)) & 3, (b[i] >> (2 * j)) & 3);
+            j += 1;
+        }
+        i += 1;
+    }
+    s
+}
+
+#[kani::proof]
+#[kani::unwind(33)]
+fn p_distance_32_pseudo() {
+    let a: [u8; 32] = kani::any();
+    let b: [u8; 32] = kani::any();
+    assert_eq!(dist_body::distance_32_pseudo64_probe(&a, &b), ref_body_dist(&a, &b));
+}
+
+fn ref_ring(x: u8, y: u8, n: u32) -> u32 {
+    let d = if x > y { (x - y) as u32 } else { (y - x) as u32 };
+    if d <= n - d { d } else { n - d }
+}
+fn ref_qdist(a: u8, b: u8) -> u32 {
+    let f = |x: u8, y: u8| { let d = ref_ring(x, y, 16); if d <= 1 { d } else { (d - 1) * 12 } };
+    f(a & 15, b & 15) + f(a >> 4, b >> 4)
+}
+fn ref_ldist(a: u8, b: u8) -> u32 { let d = ref_ring(a, b, 256); if d <= 1 { d } else { d * 12 } }
+
+#[kani::proof]
+fn p_qratios_and_length_distance() {
+    let a: u8 = kani::any();
+    let b: u8 = kani::any();
+    assert_eq!(crate::compare::dist_qratios::distance(a, b), ref_qdist(a, b));
+    assert_eq!(crate::compare::dist_length::distance(a, b), ref_ldist(a, b));
+}
+
+// C09: length encoding over the full u32 domain
+const REF_TOP: [u32; 170] = [1, 2, 3, 5, 7, 11, 17, 25, 38, 57, 86, 129, 194, 291, 437, 656, 854, 1110, 1443, 1876, 2439, 3171, 3475, 3823, 4205, 4626, 5088, 5597, 6157, 6772, 7450, 8195, 9014, 9916, 10907, 11998, 13198, 14518, 15970, 17567, 19323, 21256, 23382, 25720, 28292, 31121, 34233, 37656, 41422, 45564, 50121, 55133, 60646, 66711, 73382, 80721, 88793, 97672, 107439, 118183, 130002, 143002, 157302, 173032, 190335, 209369, 230306, 253337, 278670, 306538, 337191, 370911, 408002, 448802, 493682, 543050, 597356, 657091, 722800, 795081, 874589, 962048, 1058252, 1164078, 1280486, 1408534, 1549388, 1704327, 1874759, 2062236, 2268459, 2495305, 2744836, 3019320, 3321252, 3653374, 4018711, 4420582, 4862641, 5348905, 5883796, 6472176, 7119394, 7831333, 8614467, 9475909, 10423501, 11465851, 12612437, 13873681, 15261050, 16787154, 18465870, 20312458, 22343706, 24578077, 27035886, 29739474, 32713425, 35984770, 39583245, 43541573, 47895730, 52685306, 57953837, 63749221, 70124148, 77136564, 84850228, 93335252, 102668779, 112935659, 124229227, 136652151, 150317384, 165349128, 181884040, 200072456, 220079703, 242087671, 266296456, 292926096, 322218735, 354440623, 389884688, 428873168, 471760495, 518936559, 570830240, 627913311, 690704607, 759775136, 835752671, 919327967, 1011260767, 1112386880, 1223623232, 1345985727, 1480584256, 1628642751, 1791507135, 1970657856, 2167723648, 2384496256, 2622945920, 2885240448, 3173764736, 3491141248, 3840255616, 4224281216];
+
+#[kani::proof]
+#[kani::unwind(12)]
+fn p_length_encode_all_u32() {
+    let len: u32 = kani::any();
+    let c: usize = kani::any();
+    kani::assume(c < 170);
+    // witness-indexed characterisation: c is THE code of len iff REF_TOP[c-1] < len <= REF_TOP[c]
+    let is_code = len <= REF_TOP[c] && (c == 0 || len > REF_TOP[c - 1]);
+    let r = crate::length::FuzzyHashLengthEncoding::new(len);
+    assert!(r.is_some() == (len <= 4224281216));
+    if let Some(e) = r {
+        assert!((e.value() as usize == c) == is_code);
+        assert!((e.value() as usize) < 170);
+    }
+}
+
+// C14: frame of store_into_str_bytes on Short
+#[kani::proof]
+#[kani::unwind(20)]
+fn p_store_str_frame_short() {
+    let raw: [u8; 15] = kani::any();
+    let h = InnerShort::try_from(&raw).unwrap();
+    let mut buf: [u8; 40] = kani::any();
+    let before = buf;
+    let n: usize = kani::any();
+    kani::assume(n <= 40);
+    let with: bool = kani::any();
+    let need = if with { 32 } else { 30 };
+    let r = h.store_into_str_bytes(&mut buf[..n], if with { HexStringPrefix::WithVersion } else { HexStringPrefix::Empty });
+    if n < need {
+        assert!(r.is_err());
+        let i: usize = kani::any(); kani::assume(i < 40);
+        assert!(buf[i] == before[i]);
+    } else {
+        assert!(r == Ok(need));
+        let i: usize = kani::any(); kani::assume(i < 40);
+        if i >= need { assert!(buf[i] == before[i]); }
+        else { assert!(buf[i].is_ascii_digit() || (b'A'..=b'F').contains(&buf[i]) || (with && i < 2)); }
+    }
+}
+
+// C13 probe
+#[kani::proof]
+#[kani::unwind(40)]
+fn p_compare_with_short() {
+    let l: [u8; 33] = kani::any();
+    let r: [u8; 33] = kani::any();
+    let ln: usize = kani::any(); let rn: usize = kani::any();
+    kani::assume(ln <= 33 && rn <= 33);
+    let mut i = 0; while i < 33 { kani::assume(l[i] < 128 && r[i] < 128); i += 1; }
+    let ls = core::str::from_utf8(&l[..ln]).unwrap();
+    let rs = core::str::from_utf8(&r[..rn]).unwrap();
+    let got = crate::compare_with::<crate::hashes::Short>(ls, rs);
+    let pl = <crate::hashes::Short as FuzzyHashType>::from_str_bytes(&l[..ln], None);
+    let pr = <crate::hashes::Short as FuzzyHashType>::from_str_bytes(&r[..rn], None);
+    match (pl, pr) {
+        (Ok(a), Ok(b)) => assert!(got == Ok(a.compare(&b))),
+        (Err(e), _) => assert!(got == Err(crate::errors::ParseErrorEither(crate::errors::ParseErrorSide::Left, e))),
+        (Ok(_), Err(e)) => assert!(got == Err(crate::errors::ParseErrorEither(crate::errors::ParseErrorSide::Right, e))),
+    }
+}
+
+#[cfg(feature = "simd-per-arch")]
+#[kani::proof]
+#[kani::unwind(34)]
+#[kani::stub(core::arch::x86_64::_mm_packs_epi16, agg::verif_stubs::model_mm_packs_epi16)]
+#[kani::stub(core::arch::x86_64::_mm_shuffle_epi8, agg::verif_stubs::model_mm_shuffle_epi8)]
+#[kani::stub(core::arch::x86_64::_mm256_shuffle_epi8, agg::verif_stubs::model_mm256_shuffle_epi8)]
+#[kani::stub(std_detect::detect::cache::test, agg::verif_stubs::model_detect_test)]
+fn agg_dispatch() {
+    agg::verif_stubs::set_detect_mask(kani::any());
+    let b: [u32; 48] = kani::any();
+    let q1: u32 = kani::any();
+    let q2: u32 = kani::any();
+    let q3: u32 = kani::any();
+    kani::assume(q1 <= q2 && q2 <= q3);
+    let mut o1 = [0u8; 12];
+    let mut o2 = [0u8; 12];
+    agg::verif_agg48(0, &mut o1, &b, q1, q2, q3);
+    agg::aggregate_48(&mut o2, &b, q1, q2, q3);
+    assert!(o1 == o2);
 }
